@@ -426,11 +426,7 @@ Definition reduce (r0 r1 : fe) : fe :=
   (r1lo, r1hi).
 
 Lemma polyvalDot_eq a b : polyvalDot a b = reduce (fst (kara a b)) (snd (kara a b)).
-Proof.
-  destruct a as [alo ahi], b as [blo bhi]. unfold polyvalDot, kara, reduce. cbn [fst snd].
-  destruct (mul64 alo blo) as [r0lo r0hi], (mul64 ahi bhi) as [r1lo r1hi],
-           (mul64 (N.lxor alo ahi) (N.lxor blo bhi)) as [mlo mhi]. cbn [fst snd]. reflexivity.
-Qed.
+Proof. reflexivity. Qed.
 
 Definition fe2_xor (x y : fe * fe) : fe * fe := (fe_xor (fst x) (fst y), fe_xor (snd x) (snd y)).
 
